@@ -1635,6 +1635,29 @@ def run(ctx) -> Result:
         check_cases(res, batch, rng, soft_deadline)
         done += len(batch)
     res.extra["generated_cases"] = done
+    if ctx.thorough:
+        # exhaustive small scope: every sequence of <= 3 operations over a reduced alphabet on two slots,
+        # for both grammar classes (operations a class does not have are skipped for it)
+        import itertools
+
+        alphabet = [
+            "names 0 a,b 0", "types 0 a=int,c=nd 0", "data 0 a=s 1", "schema 0 a=S+A[N] a 1", "reqdisc 0 a", "setdef 0 a 1",
+            "del 0 a", "rename 0 a b", "restrict 0 a", "addns 0 a n", "copy 0 1", "pickle 0 1", "del 1 a", "upd 1 0 - 0",
+            "val 0 a=nd:ff", "qschema 0", "clear 0",
+        ]
+        ex: list[dict[str, Any]] = []
+        for kind in ("J", "S"):
+            alpha = [a for a in alphabet if kind == "J" or not (a.startswith(("schema", "qschema")) or a.endswith(" 1") and a.startswith("data"))]
+            for k in (1, 2, 3):
+                for combo in itertools.product(alpha, repeat=k):
+                    ex.append({"ops": ["reset", f"new 0 {kind}", "names 0 a 0", *combo, "val 0 a=nd:ff", "val 1 -"], "probe_lines": []})
+        for i in range(0, len(ex), 500):
+            if time.time() > ctx.deadline:
+                res.count("exhaustive-skipped-deadline", len(ex) - i)
+                break
+            check_cases(res, ex[i : i + 500], rng, ctx.deadline)
+        res.count("exhaustive-small-scope", len(ex))
+        res.extra["exhaustive_small_scope"] = f"{len(ex)} sequences: all sequences of <= 3 operations over {len(alphabet)} operations x 2 classes"
     return res
 
 
